@@ -53,7 +53,7 @@ class C19(common.SpecCheck):
             "written out as the canonical default - computed by harness code from the YAML alone: declared rank order; "
             "output ranks as written then remaining ranks by first appearance, each partitioned rank replaced in place by "
             "its levels outermost to innermost; empty partitioning (per Einsum, and as an empty directive list per rank) - must compile to byte-identical text. distinct = "
-            "distinct (spec, text); non-trivial = the spec is partitioned and omits the loop order of a partitioned Einsum")
+            "distinct (spec, text); about one class-S spec in twenty carries ten or eleven shape levels on one rank (two-digit level numbers); non-trivial = the spec is partitioned and omits the loop order of a partitioned Einsum")
     assumptions = ["flattened specs are outside the stated default (the statement defines the default for partitioned "
                    "ranks by levels only); they are not generated here"]
 
@@ -65,6 +65,16 @@ class C19(common.SpecCheck):
             break
         else:
             return None
+        # deep stack (rarely): ten or eleven shape levels on one rank of a class-S spec with the loop order left
+        # out, so that the level numbers have two digits (K10 sorts before K2 as a string but is the outermost level)
+        if meta["class"] == "S" and rng.random() < 0.05:
+            cand = [r for r in meta["ranks"] if r not in meta["out_only"]]
+            if cand:
+                r = rng.choice(cand)
+                n = rng.choice([10, 11])
+                spec["partitioning"]["Z"][r] = ["uniform_shape(%d)" % 2 ** i for i in range(n, 0, -1)]
+                spec["loop_order"] = None
+                meta = dict(meta, deep_stack=r)
         # make sure something is omitted: drop sections at random
         if spec.get("loop_order") and rng.random() < 0.6:
             for o in list(spec["loop_order"]):
@@ -125,6 +135,8 @@ class C19(common.SpecCheck):
         stats.add("class:" + meta["class"])
         if not spec.get("loop_order"):
             stats.add("probe:all_loop_orders_omitted")
+        if meta.get("deep_stack"):
+            stats.add("probe:two_digit_level_numbers")
         for r in results.values():
             if r["variants"]["as_written"]["status"] != "ok":
                 stats.add("rejected:" + r["variants"]["as_written"]["reject"]["exc"])
